@@ -10,9 +10,12 @@ C08, DAP leg: **no DAP message can crash the adapter** — theorems about `Model
 * `C08_dap_args_total`: with the repairs (`repaired`), for every command of the dispatch table, every JSON argument
   value, every request sequence number and every session state, decoding ends in a success, an error response or a
   call into the debugger — never in a panic, an abort, a signal to the adapter's own group or a dropped session.
-* `C08_dap_args_total_partial` (as found, decidable hypothesis `benign`), `C08_dap_args_total_counterexample`.
+* `C08_dap_args_total_partial` (the code as it is, decidable hypothesis `benign`: only `disassemble`'s count sum and
+  `terminateThreads`' first id are left), `C08_dap_args_total_counterexample`, `C08_dap_args_witnesses`;
+  `C08_dap_args_witnesses_regression` / `_witness_expr_regression`: what the model said before the repairs of the
+  expression parser and of the read-buffer reservation, and what it says now.
 * `C08_dap_session_total`: the same for every history of messages (incl. malformed envelopes) and every sequence of
-  debugger answers; `C08_dap_envelope_counterexample`: as found a malformed envelope ends the session.
+  debugger answers; `C08_dap_envelope_counterexample`: a malformed envelope still ends the session.
 -/
 namespace BsVerif.DapArgs
 open BsVerif BsVerif.CmdNum
@@ -238,20 +241,10 @@ theorem resToR_safe (r : Res) (h : r.isPanic = false) : (resToR r).SafeR := by
   cases r <;> simp_all [resToR, R.SafeR, Res.isPanic]
 
 theorem safeR_parseExpr (q : Q) (hq : q.parser.checked = true) (s : List Char) : (parseExpr q s).SafeR :=
-  resToR_safe _ (C08_run_total_repaired q.parser hq G.env _ _ s)
+  resToR_safe _ (C08_run_total q.parser hq G.env _ _ s)
 
 theorem safeR_parseWpAddr (q : Q) (hq : q.parser.checked = true) (s : List Char) : (parseWpAddr q s).SafeR :=
-  resToR_safe _ (C08_run_total_repaired q.parser hq G.env _ _ s)
-
-theorem dqe_numsOk : G.dqe.numsOk = true := by decide
-theorem wpAddrEoi_numsOk : (G.seq G.wpAddr .eoi).numsOk = true := by decide
-
-/-- as found: a string on which no numeric token is out of range does not make the parser panic -/
-theorem safeR_parseExpr_inRange (q : Q) (s : List Char) (h : tokensInRange q.parser s = true) : (parseExpr q s).SafeR :=
-  resToR_safe _ (C08_run_total_partial q.parser G.env env_numsOk _ _ s dqe_numsOk h)
-
-theorem safeR_parseWpAddr_inRange (q : Q) (s : List Char) (h : tokensInRange q.parser s = true) : (parseWpAddr q s).SafeR :=
-  resToR_safe _ (C08_run_total_partial q.parser G.env env_numsOk _ _ s wpAddrEoi_numsOk h)
+  resToR_safe _ (C08_run_total q.parser hq G.env _ _ s)
 
 /-- `parse_data_breakpoint_expression` faults only through the two parsers -/
 theorem safeR_parseDataBpExpr_of (q : Q) (e : List Char)
@@ -299,7 +292,7 @@ theorem dataBpLoop_safe (q : Q) (hq : q.parser.checked = true) : ∀ bps : List 
 theorem safeR_alloc (q : Q) (hq : q.allocGuard = true) (n : Nat) : (alloc q n).SafeR := by
   unfold alloc; split
   · trivial
-  · simp [hq, R.SafeR, Out.Safe]
+  · simp [hq, R.SafeR]
 
 theorem safeR_alloc_small (q : Q) (n : Nat) (h : n < allocMax) : (alloc q n).SafeR := by
   unfold alloc; simp [h, R.SafeR]
@@ -354,101 +347,89 @@ macro "dap_safe2" : tactic => `(tactic|
 def C08_dap_args_total_full (q : Q) : Prop :=
   ∀ (s : Sess) (seq : Int) (c : Cmd) (a : J), (decode q s seq c a).run.Safe
 
-theorem decAttach_safe (q : Q) (hq : q.AllRepaired) (s : Sess) (seq : Int) (cmd : String) (a : J) : (decAttach a).SafeOut := by
-  have h1 := hq.parser; have h2 := hq.arith; have h3 := hq.alloc; have h4 := hq.kill
+theorem decAttach_safe (q : Q) (h1 : q.parser.checked = true) (h3 : q.allocGuard = true) (s : Sess) (seq : Int) (cmd : String) (a : J) : (decAttach a).SafeOut := by
   unfold decAttach; dap_safe2
 
-theorem decBreakpointLocations_safe (q : Q) (hq : q.AllRepaired) (s : Sess) (seq : Int) (cmd : String) (a : J) : (decBreakpointLocations s a).SafeOut := by
-  have h1 := hq.parser; have h2 := hq.arith; have h3 := hq.alloc; have h4 := hq.kill
+theorem decBreakpointLocations_safe (q : Q) (h1 : q.parser.checked = true) (h3 : q.allocGuard = true) (s : Sess) (seq : Int) (cmd : String) (a : J) : (decBreakpointLocations s a).SafeOut := by
   unfold decBreakpointLocations; dap_safe2
 
-theorem decSetDataBreakpoints_safe (q : Q) (hq : q.AllRepaired) (s : Sess) (seq : Int) (cmd : String) (a : J) : (decSetDataBreakpoints q s a).SafeOut := by
-  have h1 := hq.parser; have h2 := hq.arith; have h3 := hq.alloc; have h4 := hq.kill
+theorem decSetDataBreakpoints_safe (q : Q) (h1 : q.parser.checked = true) (h3 : q.allocGuard = true) (s : Sess) (seq : Int) (cmd : String) (a : J) : (decSetDataBreakpoints q s a).SafeOut := by
   unfold decSetDataBreakpoints; dap_safe2
 
-theorem decRestartFrame_safe (q : Q) (hq : q.AllRepaired) (s : Sess) (seq : Int) (cmd : String) (a : J) : (decRestartFrame s a).SafeOut := by
-  have h1 := hq.parser; have h2 := hq.arith; have h3 := hq.alloc; have h4 := hq.kill
+theorem decRestartFrame_safe (q : Q) (h1 : q.parser.checked = true) (h3 : q.allocGuard = true) (s : Sess) (seq : Int) (cmd : String) (a : J) : (decRestartFrame s a).SafeOut := by
   unfold decRestartFrame; dap_safe2
 
-theorem decStepInTargets_safe (q : Q) (hq : q.AllRepaired) (s : Sess) (seq : Int) (cmd : String) (a : J) : (decStepInTargets s a).SafeOut := by
-  have h1 := hq.parser; have h2 := hq.arith; have h3 := hq.alloc; have h4 := hq.kill
+theorem decStepInTargets_safe (q : Q) (h1 : q.parser.checked = true) (h3 : q.allocGuard = true) (s : Sess) (seq : Int) (cmd : String) (a : J) : (decStepInTargets s a).SafeOut := by
   unfold decStepInTargets; dap_safe2
 
-theorem decReverse_safe (q : Q) (hq : q.AllRepaired) (s : Sess) (seq : Int) (cmd : String) (a : J) : (decReverse cmd a).SafeOut := by
-  have h1 := hq.parser; have h2 := hq.arith; have h3 := hq.alloc; have h4 := hq.kill
+theorem decReverse_safe (q : Q) (h1 : q.parser.checked = true) (h3 : q.allocGuard = true) (s : Sess) (seq : Int) (cmd : String) (a : J) : (decReverse cmd a).SafeOut := by
   unfold decReverse; dap_safe2
 
-theorem decGotoTargets_safe (q : Q) (hq : q.AllRepaired) (s : Sess) (seq : Int) (cmd : String) (a : J) : (decGotoTargets s a).SafeOut := by
-  have h1 := hq.parser; have h2 := hq.arith; have h3 := hq.alloc; have h4 := hq.kill
+theorem decGotoTargets_safe (q : Q) (h1 : q.parser.checked = true) (h3 : q.allocGuard = true) (s : Sess) (seq : Int) (cmd : String) (a : J) : (decGotoTargets s a).SafeOut := by
   unfold decGotoTargets; dap_safe2
 
-theorem decGoto_safe (q : Q) (hq : q.AllRepaired) (s : Sess) (seq : Int) (cmd : String) (a : J) : (decGoto s a).SafeOut := by
-  have h1 := hq.parser; have h2 := hq.arith; have h3 := hq.alloc; have h4 := hq.kill
+theorem decGoto_safe (q : Q) (h1 : q.parser.checked = true) (h3 : q.allocGuard = true) (s : Sess) (seq : Int) (cmd : String) (a : J) : (decGoto s a).SafeOut := by
   unfold decGoto; dap_safe2
 
-theorem decEvaluate_safe (q : Q) (hq : q.AllRepaired) (s : Sess) (seq : Int) (cmd : String) (a : J) : (decEvaluate q s seq a).SafeOut := by
-  have h1 := hq.parser; have h2 := hq.arith; have h3 := hq.alloc; have h4 := hq.kill
+theorem decEvaluate_safe (q : Q) (h1 : q.parser.checked = true) (h3 : q.allocGuard = true) (s : Sess) (seq : Int) (cmd : String) (a : J) : (decEvaluate q s seq a).SafeOut := by
   unfold decEvaluate; dap_safe2
 
-theorem decSetExpression_safe (q : Q) (hq : q.AllRepaired) (s : Sess) (seq : Int) (cmd : String) (a : J) : (decSetExpression q s a).SafeOut := by
-  have h1 := hq.parser; have h2 := hq.arith; have h3 := hq.alloc; have h4 := hq.kill
+theorem decSetExpression_safe (q : Q) (h1 : q.parser.checked = true) (h3 : q.allocGuard = true) (s : Sess) (seq : Int) (cmd : String) (a : J) : (decSetExpression q s a).SafeOut := by
   unfold decSetExpression; dap_safe2
 
-theorem decCompletions_safe (q : Q) (hq : q.AllRepaired) (s : Sess) (seq : Int) (cmd : String) (a : J) : (decCompletions a).SafeOut := by
-  have h1 := hq.parser; have h2 := hq.arith; have h3 := hq.alloc; have h4 := hq.kill
+theorem decCompletions_safe (q : Q) (h1 : q.parser.checked = true) (h3 : q.allocGuard = true) (s : Sess) (seq : Int) (cmd : String) (a : J) : (decCompletions a).SafeOut := by
   unfold decCompletions; dap_safe2
 
-theorem decReadMemory_safe (q : Q) (hq : q.AllRepaired) (s : Sess) (seq : Int) (cmd : String) (a : J) : (decReadMemory q s seq a).SafeOut := by
-  have h1 := hq.parser; have h2 := hq.arith; have h3 := hq.alloc; have h4 := hq.kill
+theorem decReadMemory_safe (q : Q) (h1 : q.parser.checked = true) (h3 : q.allocGuard = true) (s : Sess) (seq : Int) (cmd : String) (a : J) : (decReadMemory q s seq a).SafeOut := by
   unfold decReadMemory; dap_safe2
 
-theorem decWriteMemory_safe (q : Q) (hq : q.AllRepaired) (s : Sess) (seq : Int) (cmd : String) (a : J) : (decWriteMemory s a).SafeOut := by
-  have h1 := hq.parser; have h2 := hq.arith; have h3 := hq.alloc; have h4 := hq.kill
+theorem decWriteMemory_safe (q : Q) (h1 : q.parser.checked = true) (h3 : q.allocGuard = true) (s : Sess) (seq : Int) (cmd : String) (a : J) : (decWriteMemory s a).SafeOut := by
   unfold decWriteMemory; dap_safe2
 
-theorem decDisassemble_safe (q : Q) (hq : q.AllRepaired) (s : Sess) (seq : Int) (cmd : String) (a : J) : (decDisassemble q s seq a).SafeOut := by
-  have h1 := hq.parser; have h2 := hq.arith; have h3 := hq.alloc; have h4 := hq.kill
+theorem decDisassemble_safe (q : Q) (h1 : q.parser.checked = true) (h3 : q.allocGuard = true) (h2 : q.checkedArith = true) (s : Sess) (seq : Int) (cmd : String) (a : J) : (decDisassemble q s seq a).SafeOut := by
   unfold decDisassemble; dap_safe2
 
-theorem decTerminateThreads_safe (q : Q) (hq : q.AllRepaired) (s : Sess) (seq : Int) (cmd : String) (a : J) : (decTerminateThreads q a).SafeOut := by
-  have h1 := hq.parser; have h2 := hq.arith; have h3 := hq.alloc; have h4 := hq.kill
+theorem decTerminateThreads_safe (q : Q) (h1 : q.parser.checked = true) (h3 : q.allocGuard = true) (h4 : q.killGuard = true) (s : Sess) (seq : Int) (cmd : String) (a : J) : (decTerminateThreads q a).SafeOut := by
   unfold decTerminateThreads; dap_safe2
 
-theorem decCancel_safe (q : Q) (hq : q.AllRepaired) (s : Sess) (seq : Int) (cmd : String) (a : J) : (decCancel a).SafeOut := by
-  have h1 := hq.parser; have h2 := hq.arith; have h3 := hq.alloc; have h4 := hq.kill
+theorem decCancel_safe (q : Q) (h1 : q.parser.checked = true) (h3 : q.allocGuard = true) (s : Sess) (seq : Int) (cmd : String) (a : J) : (decCancel a).SafeOut := by
   unfold decCancel; dap_safe2
 
-theorem decRunInTerminal_safe (q : Q) (hq : q.AllRepaired) (s : Sess) (seq : Int) (cmd : String) (a : J) : (decRunInTerminal a).SafeOut := by
-  have h1 := hq.parser; have h2 := hq.arith; have h3 := hq.alloc; have h4 := hq.kill
+theorem decRunInTerminal_safe (q : Q) (h1 : q.parser.checked = true) (h3 : q.allocGuard = true) (s : Sess) (seq : Int) (cmd : String) (a : J) : (decRunInTerminal a).SafeOut := by
   unfold decRunInTerminal; dap_safe2
 
-theorem decSource_safe (q : Q) (hq : q.AllRepaired) (s : Sess) (seq : Int) (cmd : String) (a : J) : (decSource a).SafeOut := by
-  have h1 := hq.parser; have h2 := hq.arith; have h3 := hq.alloc; have h4 := hq.kill
+theorem decSource_safe (q : Q) (h1 : q.parser.checked = true) (h3 : q.allocGuard = true) (s : Sess) (seq : Int) (cmd : String) (a : J) : (decSource a).SafeOut := by
   unfold decSource; dap_safe2
 
-theorem decode_safe (q : Q) (hq : q.AllRepaired) (s : Sess) (seq : Int) (c : Cmd) (a : J) : (decode q s seq c a).SafeOut := by
-  have h1 := hq.parser
+/-- decoding faults at most where `disassemble` adds up its count and where `terminateThreads` signals -/
+theorem decode_safe_gen (q : Q) (h1 : q.parser.checked = true) (h3 : q.allocGuard = true) (s : Sess) (seq : Int) (c : Cmd) (a : J)
+    (hd : c = .disassemble → (decDisassemble q s seq a).SafeOut)
+    (hk : c = .terminateThreads → (decTerminateThreads q a).SafeOut) : (decode q s seq c a).SafeOut := by
   cases c
-  case attach => exact decAttach_safe q hq s seq "" a
-  case breakpointLocations => exact decBreakpointLocations_safe q hq s seq "" a
-  case setDataBreakpoints => exact decSetDataBreakpoints_safe q hq s seq "" a
-  case restartFrame => exact decRestartFrame_safe q hq s seq "" a
-  case stepInTargets => exact decStepInTargets_safe q hq s seq "" a
-  case stepBack => exact decReverse_safe q hq s seq "stepBack" a
-  case reverseContinue => exact decReverse_safe q hq s seq "reverseContinue" a
-  case gotoTargets => exact decGotoTargets_safe q hq s seq "" a
-  case goto => exact decGoto_safe q hq s seq "" a
-  case evaluate => exact decEvaluate_safe q hq s seq "" a
-  case setExpression => exact decSetExpression_safe q hq s seq "" a
-  case completions => exact decCompletions_safe q hq s seq "" a
-  case readMemory => exact decReadMemory_safe q hq s seq "" a
-  case writeMemory => exact decWriteMemory_safe q hq s seq "" a
-  case disassemble => exact decDisassemble_safe q hq s seq "" a
-  case terminateThreads => exact decTerminateThreads_safe q hq s seq "" a
-  case cancel => exact decCancel_safe q hq s seq "" a
-  case runInTerminal => exact decRunInTerminal_safe q hq s seq "" a
-  case source => exact decSource_safe q hq s seq "" a
+  case attach => exact decAttach_safe q h1 h3 s seq "" a
+  case breakpointLocations => exact decBreakpointLocations_safe q h1 h3 s seq "" a
+  case setDataBreakpoints => exact decSetDataBreakpoints_safe q h1 h3 s seq "" a
+  case restartFrame => exact decRestartFrame_safe q h1 h3 s seq "" a
+  case stepInTargets => exact decStepInTargets_safe q h1 h3 s seq "" a
+  case stepBack => exact decReverse_safe q h1 h3 s seq "stepBack" a
+  case reverseContinue => exact decReverse_safe q h1 h3 s seq "reverseContinue" a
+  case gotoTargets => exact decGotoTargets_safe q h1 h3 s seq "" a
+  case goto => exact decGoto_safe q h1 h3 s seq "" a
+  case evaluate => exact decEvaluate_safe q h1 h3 s seq "" a
+  case setExpression => exact decSetExpression_safe q h1 h3 s seq "" a
+  case completions => exact decCompletions_safe q h1 h3 s seq "" a
+  case readMemory => exact decReadMemory_safe q h1 h3 s seq "" a
+  case writeMemory => exact decWriteMemory_safe q h1 h3 s seq "" a
+  case disassemble => exact hd rfl
+  case terminateThreads => exact hk rfl
+  case cancel => exact decCancel_safe q h1 h3 s seq "" a
+  case runInTerminal => exact decRunInTerminal_safe q h1 h3 s seq "" a
+  case source => exact decSource_safe q h1 h3 s seq "" a
   all_goals (simp only [decode]; dap_safe2)
+
+theorem decode_safe (q : Q) (hq : q.AllRepaired) (s : Sess) (seq : Int) (c : Cmd) (a : J) : (decode q s seq c a).SafeOut :=
+  decode_safe_gen q hq.parser hq.alloc s seq c a (fun _ => decDisassemble_safe q hq.parser hq.alloc hq.arith s seq "" a)
+    (fun _ => decTerminateThreads_safe q hq.parser hq.alloc hq.kill s seq "" a)
 
 /-- **C08_dap_args_total** (repaired): for every command of the dispatch table, every JSON argument value, every
 request number and every session state (no debugger / loaded / stopped / exited, any mode, any cancellation set),
@@ -459,131 +440,68 @@ theorem C08_dap_args_total : C08_dap_args_total_full repaired :=
 
 example : (decode repaired {} 1 .completions (.obj [(k!"text", .str ['d', 'í']), (k!"column", .num 3)])).run = .ok := by decide
 
-/-! ## as found: where the full statement fails, and the requests for which it holds -/
+/-! ## the code as it is: where the full statement still fails, and the requests for which it holds -/
 
 def witnessDisassemble : J :=
   .obj [(k!"memoryReference", .str k!"0x10"), (k!"instructionCount", .num (2 ^ 63 - 1)), (k!"instructionOffset", .num (-(2 ^ 63)))]
 
-/-- **C08_dap_args_total_counterexample.** As found the full statement is false: `disassemble` with
+/-- **C08_dap_args_total_counterexample.** For the code as it is the full statement is false: `disassemble` with
 `instructionCount = i64::MAX` and `instructionOffset = i64::MIN` overflows `instruction_count as usize +
 back_instructions + 16` (source.rs:70) — in any session state, before the debugger is even looked at. -/
-theorem C08_dap_args_total_counterexample : ¬ C08_dap_args_total_full asFound := by
+theorem C08_dap_args_total_counterexample : ¬ C08_dap_args_total_full current := by
   intro h
   have := h {} 1 .disassemble witnessDisassemble
   revert this
   decide
 
-/-- the witnesses of the other fault classes (each replayed on the real code by the harness, corpus/C08) -/
+/-- the witnesses of the fault classes that are still open (replayed on the real code, corpus/C08/dap-witnesses.req) -/
 theorem C08_dap_args_witnesses :
-    (decode asFound {} 1 .disassemble witnessDisassemble).run = .panic .addOverflow ∧
+    (decode current {} 1 .disassemble witnessDisassemble).run = .panic .addOverflow ∧
+    (decode current {} 1 .terminateThreads (.obj [(k!"threadIds", .arr [.num 0])])).run = .killed := by decide
+
+/-- **regression**: what the same model says for the code as it was found — the read-buffer reservation
+(`Vec::with_capacity`, repaired by 939acb3) and the numeric tokens of the expression parser (repaired by 49f358c,
+67375f8) made `disassemble`, `readMemory`, `dataBreakpointInfo`, `evaluate` fault — and for the code as it is: the
+same requests are handed to the debugger (which answers `ENOMEM` / a parse error) or answered. -/
+theorem C08_dap_args_witnesses_regression :
     (decode asFound { dbg := .live } 1 .disassemble
       (.obj [(k!"memoryReference", .str k!"0x10"), (k!"instructionCount", .num (2 ^ 62))])).run = .panic .capacity ∧
-    (decode asFound { dbg := .live } 1 .disassemble
-      (.obj [(k!"memoryReference", .str k!"0x10"), (k!"instructionCount", .num (2 ^ 43))])).run = .abort ∧
     (decode asFound { dbg := .live } 1 .readMemory
       (.obj [(k!"memoryReference", .str k!"0x10"), (k!"count", .num (2 ^ 47))])).run = .abort ∧
-    (decode asFound {} 1 .terminateThreads (.obj [(k!"threadIds", .arr [.num 0])])).run = .killed := by decide
+    (decode current { dbg := .live } 1 .disassemble
+      (.obj [(k!"memoryReference", .str k!"0x10"), (k!"instructionCount", .num (2 ^ 62))])).run = .pass ∧
+    (decode current { dbg := .live } 1 .readMemory
+      (.obj [(k!"memoryReference", .str k!"0x10"), (k!"count", .num (2 ^ 47))])).run = .pass := by decide
 
-/-- the parser behind `dataBreakpointInfo` / `evaluate` / `setExpression` / `setDataBreakpoints`: a numeric token out of
-range panics (`unwrapped()`), with or without a debuggee -/
-theorem C08_dap_args_witness_expr :
+theorem C08_dap_args_witness_expr_regression :
     (decode asFound {} 1 .dataBreakpointInfo (.obj [(k!"name", .str k!"a[18446744073709551616]")])).run = .panic (.expr .litInt) ∧
     (decode asFound { dbg := .loaded } 1 .evaluate (.obj [(k!"expression", .str k!"a[1..99999999999999999999]")])).run
-      = .panic (.expr .sliceBound) := by decide +kernel
+      = .panic (.expr .sliceBound) ∧
+    (decode current {} 1 .dataBreakpointInfo (.obj [(k!"name", .str k!"a[18446744073709551616]")])).run = .ok ∧
+    (decode current { dbg := .loaded } 1 .evaluate (.obj [(k!"expression", .str k!"a[1..99999999999999999999]")])).run = .pass := by
+  decide +kernel
 
-/-- with the repairs the same requests are answered -/
+/-- with the remaining repairs the open witnesses are answered with an error response -/
 theorem C08_dap_args_witnesses_repaired :
     (decode repaired {} 1 .disassemble witnessDisassemble).run = .err "disassemble: instruction count overflow" ∧
-    (decode repaired { dbg := .live } 1 .readMemory
-      (.obj [(k!"memoryReference", .str k!"0x10"), (k!"count", .num (2 ^ 47))])).run = .err "requested size exceeds the address space" ∧
     (decode repaired {} 1 .terminateThreads (.obj [(k!"threadIds", .arr [.num 0])])).run = .err "terminateThreads: threadIds must be positive" := by
   decide
 
 theorem R_val_bind {α β} (a : α) (f : α → R β) : (R.val a >>= f) = f a := rfl
 theorem R_stop_bind {α β} (o : Out) (f : α → R β) : ((R.stop o : R α) >>= f) = R.stop o := rfl
 
-/-- the string `parse_data_breakpoint_id` hands to the parsers -/
-def dataIdExpr (d : List Char) : List Char :=
-  let t := trim d
-  match stripPrefix? k!"expr:" t with
-  | some e => trim e
-  | none =>
-    match stripPrefix? k!"addr:" t with
-    | some e => trim e
-    | none => trim t
-
-/-- no numeric token of the string is out of range for the numeric leaves of the expression grammar (`tokensInRange`
-of the console-parser model, decidable on the raw characters) -/
-def exprOk (e : List Char) : Bool := tokensInRange asFound.parser e
-
-def dataIdsOk (bps : List J) : Bool :=
-  bps.all fun bp => match getStr bp k!"dataId" with
-    | some d => exprOk (dataIdExpr d)
-    | none => true
-
-/-- **the decidable hypothesis of the partial theorem**: the request carries no expression with an out-of-range
-numeric token, no `disassemble` / `readMemory` size that overflows `usize` or (on a stopped debuggee) exceeds the
-address space, and `terminateThreads` does not start with thread id 0. -/
-def benign (s : Sess) (c : Cmd) (a : J) : Bool :=
+/-- **the decidable hypothesis of the partial theorem**: `disassemble` does not ask for a count that overflows
+`usize`, and `terminateThreads` does not start with thread id 0. (Before the repairs of the expression parser and of
+the read-buffer reservation the hypothesis also had to exclude out-of-range numeric tokens in every expression string
+and sizes beyond the address space.) -/
+def benign (c : Cmd) (a : J) : Bool :=
   match c with
-  | .dataBreakpointInfo => match getStr a k!"name" with
-    | some n => exprOk (trim n)
-    | none => true
-  | .evaluate => match getStr a k!"expression" with
-    | some e => exprOk e
-    | none => true
-  | .setExpression => match getStr a k!"expression" with
-    | some e => exprOk e
-    | none => true
-  | .setDataBreakpoints => dataIdsOk (((a.get k!"breakpoints").bind J.arr?).getD [])
   | .disassemble =>
-    let sum := ((getI64 a k!"instructionCount").getD 0).toNat + ((getI64 a k!"instructionOffset").getD 0).natAbs + 16
-    decide (sum < 2 ^ 64) && (s.dbg != .live || decide (max (min (sum % 2 ^ 64 * 16) (2 ^ 64 - 1)) 16 < allocMax))
-  | .readMemory => s.dbg != .live || decide (((getI64 a k!"count").getD 0).toNat < allocMax)
+    decide (((getI64 a k!"instructionCount").getD 0).toNat + ((getI64 a k!"instructionOffset").getD 0).natAbs + 16 < 2 ^ 64)
   | .terminateThreads => match (a.get k!"threadIds").bind J.arr? with
     | some (t :: _) => t.i64? != some 0
     | _ => true
   | _ => true
-
-theorem safeR_parseDataBpExpr_inRange (e : List Char) (h : exprOk (trim e) = true) : (parseDataBpExpr asFound e).SafeR :=
-  safeR_parseDataBpExpr_of asFound e (safeR_parseWpAddr_inRange _ _ h) (safeR_parseExpr_inRange _ _ h)
-
-theorem safeR_parseDataBpId_inRange (d : List Char) (h : exprOk (dataIdExpr d) = true) : (parseDataBpId asFound d).SafeR := by
-  unfold parseDataBpId
-  unfold dataIdExpr at h
-  dsimp only at h ⊢
-  split
-  · next e he => rw [he] at h; exact safeR_parseDataBpExpr_inRange e h
-  · next he =>
-    rw [he] at h
-    dsimp only at h
-    split
-    · next e he2 => rw [he2] at h; exact safeR_parseDataBpExpr_inRange e h
-    · next he2 => rw [he2] at h; exact safeR_parseDataBpExpr_inRange _ h
-
-theorem dataBpLoop_partial : ∀ bps : List J, dataIdsOk bps = true → (dataBpLoop asFound bps).SafeOut := by
-  intro bps
-  induction bps with
-  | nil => intro _; simp [dataBpLoop, R.SafeOut, Out.Safe]
-  | cons bp rest ih =>
-    intro h
-    simp only [dataIdsOk, List.all_cons, Bool.and_eq_true] at h
-    have ih' := ih (by simpa [dataIdsOk] using h.2)
-    unfold dataBpLoop
-    split
-    · exact ih'
-    · next d hd =>
-      have h1 := h.1
-      rw [hd] at h1
-      have key : (match parseDataBpId asFound d with
-          | .stop o => R.stop o
-          | .val _ => dataBpLoop asFound rest).SafeOut := by
-        have := safeR_parseDataBpId_inRange d h1
-        cases hp : parseDataBpId asFound d with
-        | stop o => rw [hp] at this; exact this
-        | val b => exact ih'
-      dsimp only
-      exact safeOut_ite _ _ _ key ih'
 
 macro "dap_safe3" : tactic => `(tactic|
   repeat' (first
@@ -593,84 +511,30 @@ macro "dap_safe3" : tactic => `(tactic|
     | apply safeR_bind
     | (simp only [safeR_orErr, safeR_rejectIf, safeR_needDbg, safeR_cancelCheck, safeR_memRefR, safeR_pure, safeR_val,
         safeOut_pure_iff, safeOut_val_iff, safeOut_stop_iff, safeR_stop_iff, Out.Safe]; done)
+    | (apply safeR_alloc; assumption)
     | split
     | dsimp only
     | contradiction))
 
 section
-attribute [local irreducible] alloc addGuard parseExpr allocMax
+attribute [local irreducible] alloc addGuard allocMax
 
-theorem decEvaluate_partial (s : Sess) (seq : Int) (a : J) (h : benign s .evaluate a = true) :
-    (decEvaluate asFound s seq a).SafeOut := by
-  unfold decEvaluate
-  simp only [benign] at h
-  cases he : getStr a k!"expression" with
-  | none => simp only [orErr, R_stop_bind]; dap_safe3
-  | some e =>
-    rw [he] at h
-    have hP : (parseExpr asFound e).SafeR := safeR_parseExpr_inRange _ _ h
-    clear h
-    simp only [orErr, R_val_bind]
-    dap_safe3
-
-theorem decSetExpression_partial (s : Sess) (a : J) (h : benign s .setExpression a = true) :
-    (decSetExpression asFound s a).SafeOut := by
-  unfold decSetExpression
-  simp only [benign] at h
-  cases he : getStr a k!"expression" with
-  | none => simp only [orErr, R_stop_bind]; dap_safe3
-  | some e =>
-    rw [he] at h
-    have hP : (parseExpr asFound e).SafeR := safeR_parseExpr_inRange _ _ h
-    clear h
-    simp only [orErr, R_val_bind]
-    dap_safe3
-
-theorem decReadMemory_partial (s : Sess) (seq : Int) (a : J) (h : benign s .readMemory a = true) :
-    (decReadMemory asFound s seq a).SafeOut := by
-  unfold decReadMemory
-  simp only [benign, Bool.or_eq_true, bne_iff_ne, ne_eq, decide_eq_true_eq] at h
-  cases hc : getI64 a k!"count" with
-  | none => simp only [orErr, R_stop_bind]; dap_safe3
-  | some c =>
-    rw [hc] at h
-    simp only [Option.getD_some] at h
-    simp only [orErr, R_val_bind]
-    by_cases hl : s.dbg = .live
-    · have hA : (alloc asFound c.toNat).SafeR := by
-        rcases h with h | h
-        · exact absurd hl h
-        · exact safeR_alloc_small _ _ h
-      clear h
-      dap_safe3
-    · clear h
-      dap_safe3
-
-theorem decDisassemble_partial (s : Sess) (seq : Int) (a : J) (h : benign s .disassemble a = true) :
-    (decDisassemble asFound s seq a).SafeOut := by
+theorem decDisassemble_partial (q : Q) (h3 : q.allocGuard = true) (s : Sess) (seq : Int) (a : J) (h : benign .disassemble a = true) :
+    (decDisassemble q s seq a).SafeOut := by
   unfold decDisassemble
-  simp only [benign, Bool.and_eq_true, Bool.or_eq_true, bne_iff_ne, ne_eq, decide_eq_true_eq] at h
+  simp only [benign, decide_eq_true_eq] at h
   cases hc : getI64 a k!"instructionCount" with
   | none => simp only [orErr, R_stop_bind]; dap_safe3
   | some c =>
     rw [hc] at h
     simp only [Option.getD_some] at h
-    obtain ⟨h1, h2⟩ := h
-    have hG := safeR_addGuard_small asFound _ h1
-    clear h1
+    have hG := safeR_addGuard_small q _ h
+    clear h
     simp only [orErr, R_val_bind]
-    by_cases hl : s.dbg = .live
-    · have hA : (alloc asFound (max (min ((c.toNat + ((getI64 a k!"instructionOffset").getD 0).natAbs + 16) % 2 ^ 64 * 16) (2 ^ 64 - 1)) 16)).SafeR := by
-        rcases h2 with h2 | h2
-        · exact absurd hl h2
-        · exact safeR_alloc_small _ _ h2
-      clear h2
-      dap_safe3
-    · clear h2
-      dap_safe3
+    dap_safe3
 
-theorem decTerminateThreads_partial (s : Sess) (a : J) (h : benign s .terminateThreads a = true) :
-    (decTerminateThreads asFound a).SafeOut := by
+theorem decTerminateThreads_partial (q : Q) (a : J) (h : benign .terminateThreads a = true) :
+    (decTerminateThreads q a).SafeOut := by
   unfold decTerminateThreads
   simp only [benign] at h
   apply safeOut_bind _ _ (safeR_rejectIf _ _); intro _
@@ -688,7 +552,7 @@ theorem decTerminateThreads_partial (s : Sess) (a : J) (h : benign s .terminateT
       | nil => simp [pure, R.SafeOut, Out.Safe]
       | cons t rest =>
         simp only [bne_iff_ne, ne_eq] at h
-        show (killFirst asFound t).SafeOut
+        show (killFirst q t).SafeOut
         unfold killFirst
         split
         · simp [R.SafeOut, Out.Safe]
@@ -702,49 +566,20 @@ theorem decTerminateThreads_partial (s : Sess) (a : J) (h : benign s .terminateT
 
 end
 
-/-- the commands whose decoding depends on the quirk settings -/
-def quirkCmds : List Cmd :=
-  [.dataBreakpointInfo, .setDataBreakpoints, .evaluate, .setExpression, .readMemory, .disassemble, .terminateThreads]
-
-theorem decode_quirk_irrelevant (q q' : Q) (s : Sess) (seq : Int) (c : Cmd) (a : J) (hc : c ∉ quirkCmds) :
-    decode q s seq c a = decode q' s seq c a := by
-  cases c <;> first | rfl | (exfalso; revert hc; decide)
-
-/-- **C08_dap_args_total_partial** (as found): every `benign` request — any command, any argument value, any session
-state — is decoded without a fault. -/
-theorem C08_dap_args_total_partial (s : Sess) (seq : Int) (c : Cmd) (a : J) (h : benign s c a = true) :
-    (decode asFound s seq c a).run.Safe := by
+/-- **C08_dap_args_total_partial** (the code as it is): every `benign` request — any command, any argument value, any
+session state — is decoded without a fault. -/
+theorem C08_dap_args_total_partial (s : Sess) (seq : Int) (c : Cmd) (a : J) (h : benign c a = true) :
+    (decode current s seq c a).run.Safe := by
   rw [← R_safeOut_run]
-  cases c
-  case evaluate => exact decEvaluate_partial s seq a h
-  case setExpression => exact decSetExpression_partial s a h
-  case readMemory => exact decReadMemory_partial s seq a h
-  case disassemble => exact decDisassemble_partial s seq a h
-  case terminateThreads => exact decTerminateThreads_partial s a h
-  case setDataBreakpoints =>
-    simp only [decode]
-    unfold decSetDataBreakpoints
-    simp only [benign] at h
-    apply safeOut_bind _ _ (safeR_needDbg _ _); intro _
-    exact dataBpLoop_partial _ h
-  case dataBreakpointInfo =>
-    simp only [decode]
-    simp only [benign] at h
-    cases hn : getStr a k!"name" with
-    | none => simp [orErr, R.SafeOut, Out.Safe, bind]
-    | some n =>
-      rw [hn] at h
-      simp only [orErr, R_val_bind]
-      exact safeOut_bind _ _ (safeR_parseDataBpExpr_inRange n h) (fun _ => by simp [pure, R.SafeOut, Out.Safe])
-  all_goals
-    rw [decode_quirk_irrelevant asFound repaired s seq _ a (by decide)]
-    exact decode_safe repaired repaired_allRepaired s seq _ a
+  exact decode_safe_gen current rfl rfl s seq c a
+    (fun hc => by subst hc; exact decDisassemble_partial current rfl s seq a h)
+    (fun hc => by subst hc; exact decTerminateThreads_partial current a h)
 
-/-- non-vacuity: benign requests exist for the commands with a hypothesis, and the witnesses above are not benign -/
-example : benign { dbg := .live } .readMemory (.obj [(k!"memoryReference", .str k!"0x10"), (k!"count", .num 64)]) = true := by decide
-example : benign {} .disassemble witnessDisassemble = false := by decide
-example : benign {} .dataBreakpointInfo (.obj [(k!"name", .str k!"a[18446744073709551616]")]) = false := by decide +kernel
-example : benign {} .dataBreakpointInfo (.obj [(k!"name", .str k!"arr[3]")]) = true := by decide +kernel
+/-- non-vacuity: benign requests exist for the two commands with a hypothesis; the witnesses are not benign -/
+example : benign .disassemble (.obj [(k!"memoryReference", .str k!"0x10"), (k!"instructionCount", .num (2 ^ 62))]) = true := by decide
+example : benign .disassemble witnessDisassemble = false := by decide
+example : benign .terminateThreads (.obj [(k!"threadIds", .arr [.num 0])]) = false := by decide
+example : benign .terminateThreads (.obj [(k!"threadIds", .arr [.num 4200001, .num 0])]) = true := by decide
 
 /-! ## histories of messages -/
 
@@ -778,15 +613,15 @@ theorem C08_dap_session_total : C08_dap_session_total_full repaired := by
     · exact stepMsg_safe repaired repaired_allRepaired rfl s m h
     · exact ih _ o ho
 
-/-- **C08_dap_envelope_counterexample** (as found): a message whose envelope does not deserialize (`null`, a missing or
+/-- **C08_dap_envelope_counterexample** (the code as it is): a message whose envelope does not deserialize (`null`, a missing or
 ill-typed `seq` / `type` / `command`) makes `run` return `Err`: the session is dropped, later requests find it closed. -/
 theorem C08_dap_envelope_counterexample :
-    runAll asFound {} [(.null, {}), (.obj [(k!"seq", .num 2), (k!"type", .str k!"request"), (k!"command", .str k!"threads")], {})]
+    runAll current {} [(.null, {}), (.obj [(k!"seq", .num 2), (k!"type", .str k!"request"), (k!"command", .str k!"threads")], {})]
       = [.dropped, .closed] ∧
-    runAll asFound {} [(.obj [(k!"seq", .str k!"7"), (k!"type", .str k!"request"), (k!"command", .str k!"threads")], {})] = [.dropped] ∧
+    runAll current {} [(.obj [(k!"seq", .str k!"7"), (k!"type", .str k!"request"), (k!"command", .str k!"threads")], {})] = [.dropped] ∧
     runAll repaired {} [(.null, {})] = [.ignored] := by decide
 
-theorem C08_dap_session_total_counterexample : ¬ C08_dap_session_total_full asFound := by
+theorem C08_dap_session_total_counterexample : ¬ C08_dap_session_total_full current := by
   intro h
   have := h {} [(.null, {})] .dropped (by decide)
   exact this
